@@ -29,7 +29,7 @@ import shutil
 import numpy as np
 
 from . import common
-from .common import Check, run_tlc, require_model_ok, validate_trace
+from .common import Check, run_tlc, run_tlc_sharded, require_model_ok, validate_trace
 
 Q = 1000000          # quanta per unit of weights / volumes / matrix entries
 INVS = ["InvSmallFaceClass", "InvGoodAccepted", "InvCorruptRejected", "InvVerdict", "InvFramesInOrder", "InvCnNeverExceedsNmax",
@@ -160,8 +160,8 @@ def dim_of(fs):
     return len(fs["L"][0])
 
 
-def direction_a(chk, rep, lib, tmp):
-    r = run_tlc("MC_VoronoiOut", dict(constants={"Part": "model", "Gen": True}, invariants=INVS + ["Emit"]))
+def direction_a(chk, rep, lib, tmp, tier):
+    r = run_tlc_sharded("MC_VoronoiOut", dict(constants={"Part": "model", "Gen": True}, invariants=INVS + ["Emit"]), nshards=6)
     require_model_ok(r, "MC_VoronoiOut model")
     chk.add_tlc(r, "MC_VoronoiOut Part=model")
     files = [c for c in r.cases if c["t"] == "files"]
@@ -169,10 +169,14 @@ def direction_a(chk, rep, lib, tmp):
     if not files or not reads:
         raise common.MachineryError("MC_VoronoiOut emitted no cases")
     goods = [c for c in files if c["mut"]["c"] == "none"]
+    ncorrupt = len(files) - len(goods)
     if len(goods) < 8 or len(files) < 1000 or any(c["why"] == "" for c in files if c["mut"]["c"] != "none"):
         raise common.MachineryError("MC_VoronoiOut: unexpected set of good / corrupted outputs")
     # --- every emitted output through text and the parser; TLC re-decides (Part = verdict)
     recs = []
+    # quick: every good output and a seeded sample of the corrupted ones go through text + parser + TLC
+    if tier == "quick":
+        files = goods + common.sample([c for c in files if c["mut"]["c"] != "none"], 500, salt=20)
     for k, c in enumerate(files):
         d = dim_of(c["fs"])
         paths = render_files(c["fs"], d, os.path.join(tmp, f"a{k}"))
@@ -190,12 +194,14 @@ def direction_a(chk, rep, lib, tmp):
     with open(tr, "w") as f:
         for x in recs:
             f.write(json.dumps(x, separators=(",", ":")) + "\n")
-    v = run_tlc("MC_VoronoiOut", dict(constants={"Part": "verdict", "Gen": False}, invariants=["InvVerdict"]), env={"TRACE_FILE": tr})
+    v = run_tlc_sharded("MC_VoronoiOut", dict(constants={"Part": "verdict", "Gen": False}, invariants=["InvVerdict"]),
+                        nshards=2 if tier == "quick" else 6, env={"TRACE_FILE": tr})
     require_model_ok(v, "MC_VoronoiOut verdict")
     if v.distinct != len(recs):
         raise common.MachineryError(f"verdict run decided {v.distinct} of {len(recs)} outputs")
     chk.add_tlc(v, "MC_VoronoiOut Part=verdict")
-    chk.extra["corrupted_outputs_rejected_by_expected_clause"] = len(files) - len(goods)
+    chk.extra["corrupted_outputs_rejected_by_expected_clause"] = ncorrupt
+    chk.extra["outputs_through_text_parser_and_verdict_run"] = len(recs)
     # --- the good outputs through the real read_neighbors, two handles, every Nmax
     rng = random.Random(common.SEED * 31 + 20)
     for c in goods:
@@ -233,6 +239,7 @@ def direction_a(chk, rep, lib, tmp):
             if ok:
                 chk.ok(("A", c["g"], str(sched)), sample={"output": c["g"], "N": N, "nmax_per_frame": sched,
                                                           "neighbour_matrix_frame1": reads[(c["g"], "nb", 1, sched[0])]["m"]})
+    return goods, reads
 
 
 # ----------------------------------------------------------------------------
@@ -432,40 +439,65 @@ def validate_sessions(chk, rep, sessions):
     chk.add_tlc(res_all, "TraceVoronoiOut")
 
 
-def corrupt_selftest(chk, sessions):
-    """One changed field in a recorded trace must be rejected at that record, by the expected clause."""
-    want = {}
-    for recs, _, extra in sessions:
-        if extra or len(recs) < 3:
-            continue
-        if "cursor" not in want:
-            i = next((i for i, r in enumerate(recs) if r["op"] == "read"), None)
-            if i is not None:
-                bad = json.loads(json.dumps(recs[:i + 1]))
-                bad[i]["tell"] += 1
-                want["cursor"] = (bad, i, "Cursor")
-        if "symmetry" not in want:
-            fs = recs[0]["fs"]
-            row = next((j for j, ln in enumerate(fs["nb"]) if ln["h"] == 0 and len(ln["t"]) > 2), None)
-            if row is not None and fs["N"][0] >= 3:
-                bad = json.loads(json.dumps(recs[:1]))
-                t = bad[0]["fs"]["nb"][row]["t"]
-                t[2] = t[2] % fs["N"][0] + 1
-                want["symmetry"] = (bad, 0, None)
-        if "frame" not in want and len(recs[0]["fs"]["N"]) >= 2:
-            i = next((i for i, r in enumerate(recs) if r["op"] == "vm" and r["k"] == 1 and r["tr"] == 0), None)
-            j = next((j for j, r in enumerate(recs) if r["op"] == "vm_ref" and r["k"] == 0 and r["tr"] == 0), None)
-            if i is not None and j is not None and recs[0]["fs"]["N"][0] == recs[0]["fs"]["N"][1] \
-                    and recs[i]["obs"] != recs[j]["obs"]:
-                bad = json.loads(json.dumps(recs[:i + 1]))
-                bad[i]["obs"] = bad[j]["obs"]          # the matrix of frame 0 returned for index 1
-                want["frame"] = (bad, i, "RequestedFrame")
-    for name, (bad, i, clause) in want.items():
-        res, rej = validate_trace("TraceVoronoiOut", bad)
+def corrupt_selftest(chk, goods, reads):
+    """Non-vacuity of the trace specification, independent of the library: a session built from
+    TLC's own two-frame output (square + rectangular lattice) and expected matrices is accepted;
+    with ONE field changed it is rejected at that record by the expected clause."""
+    c = next(x for x in goods if x["fs"]["N"] == [4, 4])
+    fs = {k: c["fs"][k] for k in ("N", "L", "nb", "w", "ov")}
+
+    def synth(f, v):            # a matrix with zero row sums that responds to one listed neighbour
+        M = []
+        for p in range(1, 5):
+            ids = fs["nb"][(f - 1) * 5 + p]["t"][2:]
+            i = next(x for x in ids if x != p)
+            row = [0] * 8
+            row[2 * (i - 1)] = v
+            row[2 * (p - 1)] = -v
+            M.append(row)
+        return M
+
+    r1, r2 = reads[(c["g"], "nb", 1, 200)], reads[(c["g"], "w", 1, 2)]
+    base = [{"op": "files", "d": 2, "fs": fs, "tolerate": 0},
+            {"op": "read", "file": "nb", "nmax": 200, "obs": r1["m"], "tell": r1["tell"]},
+            {"op": "read", "file": "w", "nmax": 2, "obs": r2["m"], "tell": r2["tell"]},
+            {"op": "vm_ref", "k": 0, "tr": 0, "loc": 1, "obs": synth(1, 5000)},
+            {"op": "vm", "k": 0, "tr": 0, "loc": 1, "obs": synth(1, 5000)},
+            {"op": "vm_ref", "k": 1, "tr": 0, "loc": 1, "obs": synth(2, 7000)},
+            {"op": "vm", "k": 1, "tr": 0, "loc": 1, "obs": synth(2, 7000)}]
+
+    def variant(name):
+        t = json.loads(json.dumps(base))
+        if name == "cursor":
+            t[1]["tell"] += 1
+            return t, 1, "Cursor"
+        if name == "matrix":
+            t[2]["obs"][0][1] += 1
+            return t, 2, "ReadableByNeighborReader"
+        if name == "symmetry":
+            t[0]["fs"]["nb"][1]["t"][2] = 3
+            return t, 0, "SymmetricMultiset"
+        if name == "rowsum":
+            t[4]["obs"][2][0] += 5000
+            return t, 4, "RowsSumToZero"
+        if name == "frame":
+            t[6]["obs"] = t[3]["obs"]
+            return t, 6, "RequestedFrame"
+        if name == "support":
+            t[3]["obs"][0][6] += 9000       # particle 1 responds to particle 4, not a listed neighbour
+            t[3]["obs"][0][0] -= 9000
+            return t, 3, "RequestedFrame:LocalSupport"
+        return t, None, None
+
+    names = ["intact", "cursor", "matrix", "symmetry", "rowsum", "frame", "support"]
+    import concurrent.futures as cf
+    with cf.ThreadPoolExecutor(max_workers=4) as ex:
+        outs = list(ex.map(lambda n: (n, variant(n), validate_trace("TraceVoronoiOut", variant(n)[0])), names))
+    for name, (_, i, clause), (res, rej) in outs:
         chk.add_tlc(res, f"TraceVoronoiOut corrupt-one-field ({name})")
-        if rej is None or rej[0] != i or (clause and not rej[1].startswith(clause)):
-            raise common.MachineryError(f"TraceVoronoiOut accepted / misplaced a corrupted record ({name}): {rej}")
-    chk.extra["corrupt_one_field_rejected"] = sorted(want)
+        if (i is None and rej is not None) or (i is not None and (rej is None or rej[0] != i or not rej[1].startswith(clause))):
+            raise common.MachineryError(f"TraceVoronoiOut self-test '{name}': expected {(i, clause)}, got {rej}")
+    chk.extra["corrupt_one_field_rejected"] = names[1:]
 
 
 def load_lib():
@@ -504,12 +536,34 @@ def run(tier, replay=None):
     tmp = common.scratch_dir("verif_c20_")
     try:
         if replay:
-            print(json.dumps(common.load_replay(replay)["case"], indent=1)[:8000])
-            return 0
+            stored = common.load_replay(replay)
+            case = stored["case"]
+            print(f"clause: {stored['clause']}")
+            if lib is None or "frames" not in case:
+                print(json.dumps(case, indent=1)[:8000])
+                return 0
+            d = case["d"]
+            frames = []
+            for fr in case["frames"]:
+                Lm = [int(round(x * 1000)) for x in fr["L"]]
+                frames.append((Lm if d == 2 else [x // 10 for x in Lm], Lm, [int(round(x * 1000)) for x in fr["lo"]], fr["pos_milli"]))
+            bad = 0
+            for k in range(6):          # the random choices of the session (Nmax, raw / transformed, ...) vary
+                s = gen_session(lib, random.Random(k), tmp, k, (d, frames))
+                for clause, c, key in s[2]:
+                    print("STILL VIOLATED:", clause, c.get("call", ""), c.get("error", ""))
+                    bad += 1
+                validate_sessions(chk, rep, [s])
+            for clause, c in chk.violations:
+                print("STILL VIOLATED:", clause, json.dumps(c.get("record", {}))[:300])
+                bad += 1
+            if not bad:
+                print("no violation on the current tree")
+            return 1 if bad else 0
         if lib is None:
             rep.violation(f"raises:{type(err).__name__}", {"call": "import PyMatterSim.neighbors.freud_neighbors", "error": str(err)[:300]})
             return chk.finish()
-        direction_a(chk, rep, lib, tmp)
+        goods, reads = direction_a(chk, rep, lib, tmp, tier)
         rng = random.Random(common.SEED * 104729 + 20)
         nsess = 36 if tier == "quick" else 500
         sessions = []
@@ -528,7 +582,7 @@ def run(tier, replay=None):
         chunk = 60
         for i in range(0, len(sessions), chunk):
             validate_sessions(chk, rep, sessions[i:i + chunk])
-        corrupt_selftest(chk, sessions)
+        corrupt_selftest(chk, goods, reads)
         chk.extra["sessions"] = nsess
         chk.extra["frames"] = sum(len(s[0][0]["fs"]["N"]) for s in sessions if s[0])
         first = next((s for s in sessions if s[0]), None)
